@@ -49,6 +49,14 @@ def decide(solver, fixes):
         solver.constraints = saved
 
 
+def junk(solver):
+    """Make the Solver a used one: earlier variables of both kinds and unrelated constraints, so that the constraint under
+    test does not start at variable id 0 on an empty program."""
+    b = solver.bool_array(3)
+    i = solver.int_array(2, -2, 3)
+    solver.ensure(b[0] | ~b[0], i[0] <= i[1] + 9, (b[1] & b[2]).then(i[0] >= -2))
+
+
 def make_graph(n, edges):
     from cspuz import graph
 
